@@ -10,8 +10,8 @@ Go code transcribed (/repo):
   without `_`, a leading `0` before a leading `.`, `e` + sign + digits), `NumInfo.decimal`
   (`Coeff.SetString(buf, base)` for bases 2/8/16; `UnmarshalText(buf)` whose error is RETURNED
   since /repo commit 1674508 — before it was ignored;
-  `baseContext.Mul` by `mulToRat[p.mul]` at precision 34, `RoundToIntegralExact`, Inexact ↦
-  "number cannot be represented as int"), `mulToRat` (1000^i, 1024^i);
+  `apd.BaseContext.Mul` by `mulToRat[p.mul]` (exact since /repo 06ced89), `RoundToIntegralExact`,
+  Inexact ↦ "number cannot be represented as int"), `mulToRat` (1000^i, 1024^i);
 * internal/core/compile/compile.go `compiler.parse` (INT/FLOAT cell: kind from `IsInt`, value
   from `Decimal`);
 * internal/core/export/value.go `exporter.num` + cue/format/printer.go (INT/FLOAT cells of
@@ -126,8 +126,9 @@ def decValue (k : Kind) (p : Parts) : LitRes :=
     match p.mul with
     | none => .ok ⟨k, v⟩
     | some (i, bin) =>
-      -- baseContext.Mul at precision 34, then RoundToIntegralExact
-      let prod := (round34 (Dec.mul v ⟨mulValue i bin, 0⟩)).1
+      -- apd.BaseContext.Mul (unlimited precision: exact, since /repo 06ced89; before: the
+      -- literal package's precision-34 context, silently rounding), then RoundToIntegralExact
+      let prod := Dec.mul v ⟨mulValue i bin, 0⟩
       match toIntegralExact prod with
       | some z => .ok ⟨.int, ⟨z, 0⟩⟩
       | none => .err
@@ -150,7 +151,13 @@ def litValue (s : Str) : LitRes :=
 /-- `literal.ParseNum` + `NumInfo.Decimal` on an arbitrary string: unlike CUE source, `ParseNum`
 itself accepts a leading sign (`n.neg`, the `-` goes into the buffer) -/
 def parseNumValue (s : Str) : LitRes :=
-  match NumLit.parseNum s with
+  -- the automaton after the optional sign is the unsigned one (a second sign is no number start);
+  -- what a sign changes is only the buffer, handled below
+  let gate : Option Kind := match s with
+    | 45 :: t => NumLit.parseNumUnsigned t
+    | 43 :: t => NumLit.parseNumUnsigned t
+    | _ => NumLit.parseNum s
+  match gate with
   | none => .err
   | some k =>
     match s with
@@ -158,12 +165,13 @@ def parseNumValue (s : Str) : LitRes :=
       -- With a `-` in the buffer the `len(p.buf) == 0` tests of `next`/`scanNumber`/`ParseNum`
       -- never fire, so the leading "0" of a literal (skipped by `scanNumber`) is never supplied:
       -- "-0", "-0e5", "-0.", "-0.P" leave "-", "-e5", "-.", "-." in the buffer and
-      -- `UnmarshalText` fails on a mantissa without digits ("invalid number").
+      -- `UnmarshalText` fails on a mantissa without digits ("invalid number").  Only for a
+      -- multiplier directly after the zero ("-0K") `scanNumber` supplies it (/repo 9d21395).
       -- (Not reachable from CUE source, where the sign is a unary operator.)
       let noMantissa := match t with
         | [48] => true
         | 48 :: c :: _ =>
-          if c == 120 || c == 88 || c == 98 || c == 111 then false
+          if c == 120 || c == 88 || c == 98 || c == 111 || NumLit.isMul c then false
           else (((readParts t).intDs.drop 1) ++ (readParts t).fracDs).isEmpty
         | _ => false
       if noMantissa then .err else
